@@ -158,7 +158,7 @@ var Specs = map[string]*PropSpec{
 		Rule: "load-biased sequence with every loader outcome and bulk shape; non-trivial = at least 3 loader invocations with 2 different outcomes; distinct = hash of (config, ops)"},
 	"C11": {Profiles: []string{"refresh"}, Classes: []string{"refresh", "load"}, OpKinds: []int{OpGet, OpBulkGet, OpRefresh, OpBulkRefresh}, Quick: 12000, Thorough: 800000, MinOps: 60, MaxOps: 200,
 		Rule: "refresh-biased sequence (clock moved onto refresh deadlines); non-trivial = at least one reload and one manual refresh message; distinct = hash of (config, ops)"},
-	"C12": {Profiles: []string{"expiry", "refresh"}, Classes: []string{"deadline", "calc", "expired", "early"}, Quick: 16000, Thorough: 1000000, MinOps: 60, MaxOps: 250,
+	"C12": {Profiles: []string{"expiry", "refresh", "sweep"}, Classes: []string{"deadline", "calc", "expired", "early"}, Quick: 16000, Thorough: 1000000, MinOps: 60, MaxOps: 250,
 		Rule: "deadline-biased sequence; after every operation ExpiresAtNano/RefreshableAtNano of every key is compared with op time + calculator duration (saturating); non-trivial = at least 5 calculator consultations; distinct = hash of (config, ops)"},
 	"C13": {Profiles: []string{"sweep"}, Classes: []string{"sweep", "unreported"}, Quick: 12000, Thorough: 800000, MinOps: 80, MaxOps: 400,
 		Rule: "sweep-biased sequence (TTLs ns..years, clock jumps up to many wheel revolutions, CleanUp); at each CleanUp every entry older than one tick must be gone and reported; non-trivial = at least one CleanUp that judged an expired entry; distinct = hash of (config, ops)"},
